@@ -549,8 +549,12 @@ def prove(ctx):
         die("forbidden construct in the Coq development: " + "; ".join(bad[:5]))
     files = ctx.mod.PROPS_VO if isinstance(ctx.mod.PROPS_VO, (list, tuple)) else [ctx.mod.PROPS_VO]
     thms, exs, ax = [], [], {}
+    tfilter = getattr(ctx.mod, "THEOREM_FILTER", {})        # e.g. {"Props/FloatFacts": r"FF_(C09|fle)_"}: this property's share of a shared file
     for f in files:
         t, e = theorems_of(f)
+        if f in tfilter:
+            t = [x for x in t if re.match(tfilter[f], x)]
+            e = []
         if not t:
             die("no theorem in " + f)
         ax.update(assumptions(f, t, os.path.join(ctx.workdir, f.replace("/", "_"))))
@@ -560,7 +564,7 @@ def prove(ctx):
     owner = {}
     for f in files:
         for t in theorems_of(f)[0]:
-            owner[t] = f
+            owner.setdefault(t, f)
     discharged = 0
     for t in thms:
         extra = [a for a in ax[t] if a not in allow and a not in by_file.get(owner.get(t), [])]
